@@ -232,6 +232,7 @@ func runTree(tree []*Node, stats map[string]int64) (fs []finding, nontrivial boo
 	if !done {
 		return fs, false
 	}
+	treeOnNilCollection(e, tree, leaves, stats, report)
 	stats["trees"]++
 	stats["leaves"] += int64(len(leaves))
 	for _, lf := range leaves {
@@ -255,6 +256,73 @@ func runTree(tree []*Node, stats map[string]int64) (fs []finding, nontrivial boo
 		applied = failIdx
 	}
 	return fs, depth >= 2 && applied >= 2
+}
+
+// treeOnNilCollection hands the same tree to NO collection (every ModuleOption is a function of
+// a Collection and can be called with nil). A module is a transparent grouping there too: nil
+// entries are ignored, the entries run in order, the first one that fails - a library option
+// reports ErrCollectionNil, a hand-written entry whatever it likes - stops the processing, and
+// its error comes back wrapped once per enclosing named module, outermost first. A tree without
+// an effective entry issues no call and returns nil.
+func treeOnNilCollection(e *env, tree []*Node, leaves []flatLeaf, stats map[string]int64, report func(clause, feature, detail string)) {
+	var err error
+	panicked := ""
+	func() {
+		defer func() {
+			if r := recover(); r != nil {
+				panicked = fmt.Sprintf("%v", r)
+			}
+		}()
+		for _, opt := range e.moduleOptions(tree) {
+			if opt == nil {
+				continue
+			}
+			if err = opt(nil); err != nil {
+				break
+			}
+		}
+	}()
+	stats["trees_applied_to_a_nil_collection"]++
+	if panicked != "" {
+		report("panic", "nil-collection", "applying the tree to a nil Collection panicked: "+panicked)
+		return
+	}
+	if len(leaves) == 0 {
+		if err != nil {
+			report("failure-class-differs", "nil-collection:no-effective-entry", fmt.Sprintf("the tree has no effective entry (empty modules / nil entries only) and issues no call; applied to a nil Collection it returned %v", err))
+		}
+		return
+	}
+	first := leaves[0]
+	if err == nil {
+		report("failure-class-differs", "nil-collection", fmt.Sprintf("the first entry %s cannot succeed without a Collection, but the tree returned nil", first.Op))
+		return
+	}
+	want, wantName := godi.ErrCollectionNil, "ErrCollectionNil"
+	if first.Op.Kind == "fail" {
+		want, wantName = errLeaf, "the entry's own error"
+	}
+	if !errors.Is(err, want) {
+		report("cause-unreachable", "nil-collection", fmt.Sprintf("the first entry %s fails with %s; it is not reachable from what the tree returned: %v", first.Op, wantName, err))
+	}
+	if want == errLeaf && errors.Is(err, godi.ErrCollectionNil) {
+		report("first-failing-entry-not-the-one-reported", "nil-collection", fmt.Sprintf("the first entry is a hand-written option that fails with its own error; the tree reported ErrCollectionNil: %v", err))
+	}
+	var seen []string
+	walkErr(err, func(x error) {
+		switch me := x.(type) {
+		case godi.ModuleError:
+			seen = append(seen, me.Module)
+		case *godi.ModuleError:
+			if me != nil {
+				seen = append(seen, me.Module)
+			}
+		}
+	})
+	if strings.Join(seen, "\x00") != strings.Join(first.Names, "\x00") {
+		report("module-error-chain", "nil-collection", fmt.Sprintf("the failing entry %s sits in named modules %q (outermost first); the error carries the ModuleErrors %q: %v", first.Op, first.Names, seen, err))
+	}
+	stats["nil_collection_chains_checked"]++
 }
 
 // compareTwin applies entries to a fresh collection A through apply and the given
